@@ -7,7 +7,7 @@ REQUIRED = ["DaeVerif.C08.Props." + n for n in [
     "stale_served_at_once", "refresh_only_when_none_in_flight", "in_flight_refreshes_distinct",
     "fixed_ttl_applies", "fixed_ttl_absent", "key_case_insensitive", "key_injective", "base_of_response_key",
     "janitor_time_step", "janitor_keeps", "janitor_evicts_least_recently_used", "heap_selects_oldest",
-    "lookup_and_insert_stamp_last_access",
+    "lookup_and_insert_stamp_last_access", "cfg_in_force", "fresh_served", "latest_insert_wins", "removed_is_gone",
 ]]
 
 
@@ -23,7 +23,13 @@ def run(ctx):
         "netip.ParseAddr(host) (the 'pure IP host is not cached' guard) is an input bit of the insert op, not modelled",
         "testing/synctest virtual clock = time.Now() seen by the controller",
         "names are ASCII (strings.ToLower = ASCII lower-casing); TTLs fit in 32 bits (no int64 overflow in now+ttl*1e9)",
-        "in-flight refreshes are the ghost latchStep: a clean-up on key k is taken to end the refresh of the entry then stored under k",
+        "the refresh latch is the ghost latchStep: set by the lookup that returns needRefresh, released by a clean-up on the key. "
+        "That every needRefresh=true starts a refresh whose clean-up runs is the caller's business: the request-path stream (ask ops) "
+        "executes the real callers, and one of them (post-singleflight lookup) is known to drop needRefresh (observation G3)",
+        "production reloads reuse a controller only with an identical dns{} section (cmd.dnsConfigEqual, not executed: package cmd); "
+        "the five assignments that record dns{} on the ControlPlane are replicated by the harness, the option builder and "
+        "ReuseDNSControllerFrom/CloneDnsCache are the real ones",
+        "wall clock and monotonic clock agree (deadline.After vs UnixNano comparisons); under synctest they do",
         "key_injective assumes question names without the '|' character",
     ]
     ctx.prove(["DaeVerif.C08.Props"], ["DaeVerif.C08.Props"], ["DaeVerif/C08/*.lean"], extra_targets=["c08drv"])
@@ -98,6 +104,16 @@ def run(ctx):
             ctx.report("a background refresh that ended without a new answer did not leave the stale answer served inside "
                        f"its window with the latch released: lookups {looks}", {"scenario": seg},
                        key="c08-failed-refresh-evicts-stale")
+
+    seg = segment("reuse-reload-config")
+    if seg is not None:
+        recs = [im for op, im in seg if op.startswith("reconf ")]
+        looks = [im for op, im in seg if op.startswith("look ")]
+        if not (len(recs) == 2 and all(r == "reconf opt=1 stale=300 max=50" for r in recs)
+                and looks and looks[-1].startswith("hit")):
+            ctx.report("a reload with an unchanged dns{} section (ReuseDNSControllerFrom) did not keep optimistic_cache=true, "
+                       f"optimistic_cache_ttl=300, max_cache_size=50: {recs}; stale lookup 95 s into the window: {looks}",
+                       {"scenario": seg}, key="c08-reuse-reload-drops-cache-config")
 
     n_look = n_hit = 0
     distinct = set()
